@@ -132,7 +132,17 @@ def rule_iterator_invalidation(ctx, chk, rule, modules=SOLVER_MODULES):
                 continue
             nloops += 1
             where = f.where(loop)
-            objs = pt.underlying_iterables(loop.iter, f)
+            it_ = loop.iter
+            # filter(pred, xs) / filterfalse(pred, xs) / map(f, xs, ..) / takewhile(pred, xs): what is traversed is xs - the predicate
+            # (often a bound method of the very set the body adds to: `seen.__contains__`) is consulted, not iterated
+            objs = None
+            if isinstance(it_, ast.Call) and call_name(it_) in ("filter", "filterfalse", "itertools.filterfalse", "map", "takewhile", "itertools.takewhile", "dropwhile",
+                                                                "itertools.dropwhile") and len(it_.args) >= 2 and not it_.keywords:
+                objs = set()
+                for a_ in it_.args[1:]:
+                    objs |= pt.underlying_iterables(a_, f)
+            if objs is None:
+                objs = pt.underlying_iterables(loop.iter, f)
             effs, stores = body_effects(ctx, pt, f, loop.body)
             bad = False
             for e, chain in effs:
@@ -369,6 +379,19 @@ def identity_on_values(ctx, chk, rule, modules):
                     return (isinstance(x, ast.Constant) and (x.value is None or x.value is True or x.value is False or x.value is Ellipsis)) \
                         or (isinstance(x, ast.Name) and (x.id in ctx.prog.classes or x.id in ("NotImplemented",)))
                 if singleton(a) or singleton(b):
+                    continue
+
+                def sentinel(x):
+                    # a module-level (or local) name bound to `object()`: made to be compared by identity, equal to nothing else
+                    if not isinstance(x, ast.Name):
+                        return False
+                    v = f.mod.consts.get(x.id)
+                    if v is None:
+                        for st_ in f.mod.tree.body:
+                            if isinstance(st_, ast.Assign) and any(isinstance(t_, ast.Name) and t_.id == x.id for t_ in st_.targets):
+                                v = st_.value
+                    return isinstance(v, ast.Call) and call_name(v) == "object" and not v.args
+                if sentinel(a) or sentinel(b):
                     continue
 
                 def value_typed(x):
@@ -1170,13 +1193,37 @@ def rule_no_keyed_collapse(ctx, chk, rule, only=None):
                         used = any(t == ("res", lid, v) for t in _terms_of_kernel(k))
                         if used:
                             keyed = (v, u[2])
-            elif getattr(L, "ckind", None) == "dict" and getattr(L, "key", None) in parts:
-                keyed = ("<dict comprehension>", L.key)
+            elif getattr(L, "ckind", None) == "dict" and L.elt is not None and L.elt[0] == "tup" and len(L.elt[1]) == 2 and L.elt[1][0] in parts:
+                keyed = ("<dict comprehension>", L.elt[1][0])
             if keyed:
                 hits += 1
                 chk.violation(rule, f.where(), "%s.%s collects its transitions in a dictionary keyed by the %s (`%s[%s] = ...`): two transitions with the same %s - parallel edges - "
                               "overwrite each other, so one of them is missing from what is computed" % (cls, m, parts[keyed[1]], keyed[0], show_(keyed[1]), parts[keyed[1]]),
                               expected="every transition of the list takes part", found="dict keyed by %s" % show_(keyed[1]), construct="%s.%s keyed collapse" % (cls, m))
+    # itertools.groupby groups CONSECUTIVE items with equal keys: on a list that is not sorted by that key, equal keys that are not
+    # neighbours form several groups - collected into a dictionary the later group overwrites the earlier one
+    KERNELS = {"value_iteration_reach", "value_iteration_rewards", "prune_paths", "remove_path", "prune_paths_reachability", "get_best_strategies_reachability",
+               "get_worst_strategies_reachability", "get_best_strategies_total_rewards", "get_worst_strategies_total_rewards"}
+    for role, cls in K.role_classes(ctx).items():
+        for cname in ctx.prog.mro(cls):
+            for m, f in ctx.prog.classes[cname].methods.items():
+                if only is not None and m not in only and m in KERNELS:
+                    continue
+                for c in walk_no_nested_defs(f.node):
+                    if isinstance(c, ast.Call) and call_name(c) in ("groupby", "itertools.groupby") and c.args:
+                        a0 = c.args[0]
+                        srt = isinstance(a0, ast.Call) and call_name(a0) == "sorted"
+                        if isinstance(a0, ast.Name):
+                            srt = any(isinstance(st, ast.Assign) and any(isinstance(t, ast.Name) and t.id == a0.id for t in st.targets) and isinstance(st.value, ast.Call)
+                                      and call_name(st.value) == "sorted" for st in walk_no_nested_defs(f.node))
+                        if not srt and (cname, m, c.lineno) not in getattr(chk, "_groupby_seen", set()):
+                            seen = getattr(chk, "_groupby_seen", set())
+                            seen.add((cname, m, c.lineno))
+                            chk._groupby_seen = seen
+                            hits += 1
+                            chk.violation(rule, f.where(c), "%s.%s groups `%s` with itertools.groupby without sorting it by the key first: groupby only merges NEIGHBOURS, so successors with "
+                                          "equal keys that are not adjacent in the transition list fall into separate groups (and a dictionary built from the groups keeps the last one only)"
+                                          % (cname, m, src(a0)[:50]), expected="sorted by the key first, or a plain loop", found=src(c)[:100], construct="%s.%s groupby unsorted" % (cname, m))
     if not hits:
         chk.ok(rule, "tad.py node classes", "no kernel funnels its transitions through a dictionary keyed by the successor or the label (%d loops over successor lists examined)" % n)
     return hits
@@ -1205,3 +1252,27 @@ def _terms_of_kernel(k):
         if isinstance(L.source, tuple):
             out += C02._sub(L.source)
     return out
+
+
+def rule_no_complement_keys(ctx, chk, rule, modules):
+    """A dictionary display (or comprehension) keyed by a computed number AND by its complement (`{p: a, 1 - p: b}`): for
+    p == 0.5 the two keys are one key and the first entry is overwritten - the outcome of probability p disappears and the
+    distribution no longer adds up to 1."""
+    n = hits = 0
+    for f in ctx.prog.all_funcs(tuple(modules)):
+        for d in walk_no_nested_defs(f.node):
+            if not isinstance(d, ast.Dict) or len(d.keys) < 2 or any(k is None for k in d.keys):
+                continue
+            n += 1
+            texts = [src(k) for k in d.keys]
+            for k in d.keys:
+                if isinstance(k, ast.BinOp) and isinstance(k.op, ast.Sub) and isinstance(k.left, ast.Constant) and k.left.value in (1, 1.0) and src(k.right) in texts \
+                        and not isinstance(k.right, ast.Constant):
+                    hits += 1
+                    chk.violation(rule, f.where(d), "%s keys a dictionary by `%s` and by `%s`: when the probability is 0.5 the two keys coincide, the later entry replaces the earlier one, "
+                                  "and the state is left with a single transition of probability 0.5" % (f.short, src(k.right), src(k)), expected="a list of (probability, target) pairs",
+                                  found=src(d)[:100], construct="%s complement keys" % f.short)
+                    break
+    if not hits:
+        chk.ok(rule, ", ".join(modules), "no dictionary keyed by a probability and its complement (%d dictionary displays examined)" % n)
+    return hits
